@@ -184,7 +184,7 @@ def map_corpus(tier, seed):
     items = []
     nls = netlist.g2_shapes() + (netlist.g3_random(seed, 25) if tier == 'quick' else netlist.g3_random(seed, 600) + netlist.g3_random(seed + 1000, 300, max_in=8, max_gates=30, max_dff=5, max_latch=2))
     for j, nl in enumerate(nls):
-        style = ('verilog', 'bench', 'lean')[j % 3]
+        style = ('verilog', 'bench', 'lean', 'vbf')[j % 4]
         for reuse in (False, True):
             for strip in (False, True):
                 for capmode in (('u4', 'rnd') if tier == 'quick' else ('u4', 'u8', 'u16', 'rnd', 'rnd2')):
